@@ -77,6 +77,9 @@ pub fn install_panic_hook() {
             .location()
             .map(|l| format!("{}:{}", l.file(), l.line()))
             .unwrap_or_else(|| "?".into());
+        if std::env::var_os("VERIF_TRACE").is_some() {
+            eprintln!("PANIC {msg} at {loc}");
+        }
         if in_sim {
             let _ = PANICS.try_with(|p| p.borrow_mut().push((msg, loc)));
         } else if token != 0 {
@@ -271,8 +274,13 @@ pub fn main_for(prop: Arc<dyn Property>, args: &Args) -> i32 {
                 }
                 let seed = run_seed(args.seed, prop.id(), i);
                 let case = prop.generate(seed, args.tier);
-                let keep = i < 3;
+                // debugging aid (never set by registered commands): dump one run's history as seen inside the batch
+                let dump = std::env::var("VERIF_DUMP_RUN").ok().and_then(|s| s.parse::<u64>().ok()) == Some(i);
+                let keep = i < 3 || dump;
                 let out = run_isolated(&prop, seed, &case, keep);
+                if dump {
+                    let _ = std::fs::write(format!("/tmp/verif-dump-{}-{i}.txt", std::process::id()), out.history.join("\n"));
+                }
                 local.evaluations += 1;
                 if let Some(e) = &out.harness_error {
                     local.harness_errors.push(format!("run {i} seed {seed}: {e}"));
